@@ -129,14 +129,33 @@ def run(ck):
     for w in range(nw):
         if not ck.mine(w):
             continue
-        sc = walk.Scenario(base + 7919 * w, mons, n_children=1 + w % 2)
+        from vf.checks.c09 import WALK_CONFS
+        sc = walk.Scenario(base + 7919 * w, mons, dict(WALK_CONFS[w % len(WALK_CONFS)]), n_children=1 + w % 2)
         walk.random_walk(sc, rng, rng.randrange(8, 28), lossy=bool(w % 2))
         sc.settle()
         ck.nontrivial(repr(sc.sim.case['actions']))
         ck.count('walks')
+    hub_walks(ck, sad, base)
+
+
+def hub_walks(ck, sad, base):
+    """Several IKE_SAs per daemon (hub with 2-3 peers, simultaneous initiations), lossless and lossy."""
+    n = 120 if not ck.thorough() else 12000
+    for w in range(n):
+        if not ck.mine(w):
+            continue
+        rng = ck.rng('hub', w)
+        sim, hub, peers = S.make_star(base + 31337 + w, peers=2 + w % 2, v6=bool(w % 5 == 0))
+        sim.case = {'family': 'hub', 'w': w, 'actions': []}
+        sad.reset()
+        sim.monitors.append(sad.on_step)
+        walk.hub_walk(sim, hub, peers, rng, rng.randrange(12, 45), lossy=bool(w % 2))
+        ck.count('hub.walks')
+        ck.nontrivial(('hub', repr(sim.case['actions'])))
 
 
 def verdict(ck):
+    ck.floor('hub walks', ck.counters['hub.walks'], 80)
     ck.floor('steps compared', ck.counters['sad.steps_checked'], 20000)
     ck.floor('non-empty equal comparisons', ck.counters['sad.equal_nonempty'], 10000)
     ck.floor('faults injected', ck.counters['faults.injected'], 150)
